@@ -39,10 +39,21 @@ REQUIRED_THEOREMS = [
     "M1L.quiescent_termination_bounded",
     "M1L.quiescent_termination_init",
     "M1L.quiescent_termination_after",
+    "M1LSeq.reachable_inv",
+    "M1LSeq.current_call_refines_M1L",
+    "M1LSeq.finished_call_refines_M1L",
+    "M1LSeq.step_refines",
+    "M1LSeq.return_correct_seq",
+    "M1LSeq.clean_call_returns_seq",
+    "M1LSeq.exactly_once_seq",
+    "M1LSeq.dispatch_conservation_seq",
+    "M1LSeq.no_premature_exit_seq",
+    "M1LSeq.stale_steps_are_noops",
 ]
-EXTRA_LEAN_MODULES = ("JoblibProofs.M1L",)
-EXTRA_LEAN_TARGETS = ("drv_m1l",)
+EXTRA_LEAN_MODULES = ("JoblibProofs.M1L", "JoblibProofs.M1LSeq",)
+EXTRA_LEAN_TARGETS = ("drv_m1l", "drv_m1lseq",)
 TRUSTED_EXTRA = [
+    "M1L-Seq (lean/JoblibModel/ParallelLockSeq.lean, theorems M1LSeq.*): sequences of calls on one object at M1L granularity; between two calls the caller thread does nothing but return/raise and call again (one atomic step up to the lock of _reset_run_tracking); uuid4 call ids are pairwise distinct (modelled by a counter); the backend keeps calling back for batches of earlier calls from threads it does not join (worst case); termination of sequences is checked, not proved",
     "M1L (lean/JoblibModel/ParallelLock.lean, theorems M1L.*): a second, small-step, multi-threaded model of the same protocol; one atomic step = the code of one thread between two scheduling points (outermost acquire/release of Parallel._lock, a backend call, time.sleep, an unlocked access to _aborting/_exception/_iterating/_original_iterator/n_dispatched_tasks/n_completed_tasks/_jobs/tracker status), any number of callback threads, every interleaving; scope: one call on a fresh object, ordered modes, no timeout; tied to the code by step-log equality of forced real-thread schedules (instrumented lock, controllable backend, descriptor-instrumented shared attributes, no line numbers); assumed: threading.RLock mutual exclusion, atomicity of a single attribute load/store under the GIL; accesses to attributes outside the list and the input iterator's __next__ are atomic with their segment; termination under the drain schedule (completions, then callbacks, then the caller) is PROVED from every reachable state with an explicit bound (quiescent_termination*, measure 1300*W+100*P+100*L+R); termination under other fair schedules is not stated",
     "M1 granularity: completion callbacks are atomic and happen at hook points of the caller (configure, compute_batch_size, sleep, consumer "
     "pauses, inside backend.abort_everything, between two calls and after the last one); interleavings inside a callback or between two bytecodes of the caller are not in the model",
